@@ -12,7 +12,7 @@
     incoherent <clause>                  (only when the verdict would be `ok`) the hypothesis of `asm_refines` fails on the dumped
                                          translation results: a clause of `Assemble.Coherent` (keys/first/same/exitOut; `reqFun` only
                                          when a guard is DROPPED, i.e. the later request is a manual edge — a successor's guard is merged
-                                         into the edge by OR and the case stays `ok` with detail `merged-guards`),
+                                         into the edge by OR and the case stays `ok` with detail `merged-guards:<coverage by asm_refines_merged_partial>`),
                                          or `continuation@<addr>`: the control transfers requested out of an instruction differ
                                          from what lifting that ONE instruction gives (the `oracle` field)
     asm-mismatch <first difference>      (only when the verdict would be `ok`) the Lean model of the assembly algorithm
@@ -329,6 +329,46 @@ def mergedGuards (req ans : String) : Bool :=
     | none => false
   | _, _ => false
 
+/-- states at the instruction boundaries of the reference run -/
+def refStates (oracle : List (Nat × (BTR ⊕ String))) : Nat → Nat → State → List State → List State
+  | 0, _, σ, acc => σ :: acc
+  | fuel + 1, pc, σ, acc =>
+    match oracle.lookup pc with
+    | some (.inl r) =>
+      match stepBTR r σ with
+      | .next σ' pc' => refStates oracle fuel pc' σ' (σ :: acc)
+      | .indirect σ' _ => σ' :: σ :: acc
+      | .stop σ' _ => σ' :: σ :: acc
+    | _ => σ :: acc
+
+/-- is a case with a merged guard covered by `asm_refines_merged_partial`?  Evaluates its hypotheses for
+    `tb' = normalize tb`: coherence and well-formedness of `tb'`, `MergedOf`, `assemble tb' = assemble tb` (the step that is
+    not proved for all tables), and `GuardsTyped` at the instruction boundaries of the reference run. -/
+def mergedCoverage (req ans : String) : String :=
+  match splitBar req, splitBar ans with
+  | head :: stS :: _, _ :: _ :: _ :: orS :: asmS :: _ =>
+    let hf := head.splitOn " "
+    let manual := parseManual (hf[5]?.getD "m=")
+    let entry := (hf[4]?.bind Sx.parseNat).getD 0
+    let steps := ((hf[6]?.map (fun x => (x.drop 6).toString)).bind String.toNat?).getD 0
+    match parseTr (asmS.drop 3).toString, parseOracle (orS.drop 7).toString, MachState.parse stS with
+    | some tr, some oracle, some ms =>
+      let tb : List (Nat × BTR) := tr.map (fun (a, r) => (a, r.getD (Assemble.emptyResult a)))
+      let tb' := Assemble.normalize tb
+      if !decide (Assemble.Coherent tb' manual) then "uncovered(normalised-table-incoherent)"
+      else if (illFormedGraph tb').isSome then "uncovered(ill-formed-graph)"
+      else if !Assemble.mergedOfB tb tb' manual then "uncovered(more-than-two-guards)"
+      else if !(match Assemble.assemble tb' manual entry, Assemble.assemble tb manual entry with
+                | .ok f', .ok f => f' == f
+                | _, _ => false) then "uncovered(normalised-table-assembles-differently)"
+      else
+        let guards := (Assemble.reqList tb manual).filterMap (·.2.2)
+        let states := refStates oracle (steps + 2) entry ms.toState []
+        if states.all (fun σ => guards.all (fun g => Assemble.guardBitB σ g)) then "covered"
+        else "hypotheses-hold;guards-untyped-in-some-visited-state"
+    | _, _, _ => "uncovered(unparsable)"
+  | _, _ => "uncovered(unparsable)"
+
 def handle (line : String) : String :=
   if line.startsWith "asm " then
     match line.splitOn "\t" with
@@ -357,7 +397,7 @@ def handle (line : String) : String :=
         | none =>
           -- `ok`; the detail column says when a guard was merged (such programs are outside the hypothesis `reqFun`
           -- of `asm_refines` and are validated per case only)
-          if mergedGuards req ans then (base.splitOn "\t").head! ++ "\tmerged-guards" else base
+          if mergedGuards req ans then (base.splitOn "\t").head! ++ "\tmerged-guards:" ++ mergedCoverage req ans else base
     | _ => base
   else base
 
